@@ -515,6 +515,16 @@ def main(argv=None):
                 print(f"CHECKER-ERROR bounded check {a['script']}: {a['outcome']}: {str(a.get('detail'))[:300]}")
                 exit_code = exit_code or 3
 
+    # vacuity guard of the thorough tier: every seeded change written for this property (seeded/<prop>-*) that still
+    # applies to the tree under check must be REPORTED by this very check; one that is not means the check has gone
+    # blind (exit 3).  Only when the tree itself is clean (exit 0) and not while self-testing.
+    self_test = None
+    if tier == "thorough" and exit_code == 0 and not args.only and not os.environ.get("PYVC_SELFTEST"):
+        self_test = run_self_test(prop, os.path.abspath(args.repo), args.jobs or 0)
+        for name in self_test["not_reported"]:
+            print(f"CHECKER-ERROR self-test: seeded change {name} applies to this tree but is not reported by ./check {prop} (the check is blind to it)")
+            exit_code = 3
+
     for o in undecided:
         print(f"UNDECIDED {o['oid']}: {o['status']}")
     for oid in missing:
@@ -533,13 +543,46 @@ def main(argv=None):
             print(f"  fn {r['key']}[{r['tree']}] {r['stats']}")
 
     if not args.no_evidence:
-        write_evidence(prop, tier, seed, spec, reg, repo, results, obligations, discharged, refuted_known, violations, undecided, missing, errors, wall, args, audit_results, bounded_fallbacks)
+        write_evidence(prop, tier, seed, spec, reg, repo, results, obligations, discharged, refuted_known, violations, undecided, missing, errors, wall, args, audit_results, bounded_fallbacks, self_test)
     n_ok = len(discharged)
     print(
         f"{prop}: {len(obligations)} obligations, {n_ok} discharged, {len(refuted_known)} known findings, "
         f"{len(violations) + sum(1 for b in bounded_fallbacks if b['outcome'] == 'failing input found')} violations, {len(undecided) + len(missing)} undecided, {len(errors)} checker errors, {wall:.1f}s -> exit {exit_code}"
     )
     return exit_code
+
+
+def run_self_test(prop, repo_dir, jobs):
+    import concurrent.futures as cf
+    import shutil
+    import tempfile
+
+    sdir = os.path.join(HERE, "seeded")
+    names = sorted(x for x in os.listdir(sdir) if x.startswith(prop + "-") and os.path.isfile(os.path.join(sdir, x, "patch.diff"))) if os.path.isdir(sdir) else []
+    out = {"seeded_changes": len(names), "reported": [], "not_reported": [], "skipped_patch_does_not_apply": [], "undecided": []}
+
+    def one(name):
+        d = tempfile.mkdtemp(prefix="selftest.", dir="/var/tmp")
+        try:
+            repo = os.path.join(d, "repo")
+            os.makedirs(repo)
+            for sub in ("httpcore", "scripts"):
+                shutil.copytree(os.path.join(repo_dir, sub), os.path.join(repo, sub))
+            p = subprocess.run(["patch", "-p1", "-s", "--no-backup-if-mismatch", "-i", os.path.join(sdir, name, "patch.diff")], cwd=repo, capture_output=True, text=True)
+            if p.returncode != 0:
+                return name, "skip"
+            env = dict(os.environ, PYVC_SELFTEST="1", PYVC_CACHE_DIR=os.path.join(d, "cache"))
+            r = subprocess.run([sys.executable, "-m", "pyvc.run", prop, "--repo", repo, "--no-evidence", "--tier", "quick", "--jobs", "4"], cwd=HERE, env=env, capture_output=True, text=True, timeout=3600)
+            return name, {0: "blind", 1: "reported"}.get(r.returncode, "undecided")
+        except Exception as e:  # noqa: BLE001
+            return name, "undecided"
+        finally:
+            shutil.rmtree(d, ignore_errors=True)
+
+    with cf.ThreadPoolExecutor(4) as ex:
+        for name, verdict in ex.map(one, names):
+            {"skip": out["skipped_patch_does_not_apply"], "blind": out["not_reported"], "reported": out["reported"], "undecided": out["undecided"]}[verdict].append(name)
+    return out
 
 
 def run_audits(prop, spec, repo_dir, seed):
@@ -571,7 +614,7 @@ def run_audits(prop, spec, repo_dir, seed):
     return out
 
 
-def write_evidence(prop, tier, seed, spec, reg, repo, results, obligations, discharged, refuted_known, violations, undecided, missing, errors, wall, args, audit_results=(), bounded_fallbacks=()):
+def write_evidence(prop, tier, seed, spec, reg, repo, results, obligations, discharged, refuted_known, violations, undecided, missing, errors, wall, args, audit_results=(), bounded_fallbacks=(), self_test=None):
     funcs = []
     solver_time = 0.0
     nvc = 0
@@ -629,6 +672,7 @@ def write_evidence(prop, tier, seed, spec, reg, repo, results, obligations, disc
             "known_findings_reported": sorted({o["oid"] for o in refuted_known}),
             "bounded_stand_ins": spec.get("bounded", []),
             "bounded_function_stand_ins": list(bounded_fallbacks),
+            "seeded_change_self_test": self_test if self_test is not None else "thorough tier only: every seeded change of this property must be reported by the check (vacuity guard)",
             "bounded_checks_run": list(audit_results) if tier == "thorough" else "bounded stand-ins run in the thorough tier only: " + ", ".join(a["script"] for a in spec.get("audits", [])) if spec.get("audits") else [],
             "not_decided": spec.get("not_decided", []),
             "file_sha256": repo.file_hashes(),
